@@ -130,7 +130,8 @@ def run(rep, tier):
         text, info = reconstruct(fb, rep, alt)
         for q, (f, t, nonlit, ctrl) in info.items():
             if ctrl:
-                rep.fail('R04.1', '%s|control flow' % q, locstr(ctrl[0]), '%s is no longer a straight-line writer: %s at %s' % (q, ctrl[0]['k'], locstr(ctrl[0])))
+                # not a verdict about the property: the emitted text is no longer a fixed template, the rules below cannot be evaluated
+                raise AnalysisBroken('%s is no longer a straight-line writer (%s at %s): the emitted step function cannot be reconstructed as one fixed text' % (q, ctrl[0]['k'], locstr(ctrl[0])))
         total_lines = len(text.splitlines())
         d = os.path.join(facts._cache_dir(), 'cgen')
         os.makedirs(d, exist_ok=True)
